@@ -253,6 +253,16 @@ def main(run_fn_by_pid, argv):
     a = ap.parse_args(argv)
     seed = int(os.environ.get("VERIF_SEED", "0") or 0)
     tier = a.tier if a.tier in ("quick", "thorough") else "quick"
+    if a.replay and __debug__:
+        # a violation that was handed back by the second interpreter is replayed under that interpreter
+        try:
+            with open(a.replay) as fh:
+                first = json.load(fh).get("first")
+        except (OSError, ValueError):
+            first = None
+        if isinstance(first, dict) and first.get("second_interpreter"):
+            env = dict(os.environ, VERIF_IMPORT_STYLE="package")
+            os.execve(sys.executable, [sys.executable, "-O", "-m", "harness.run", a.pid, "--tier", tier, "--replay", a.replay], env)
     ctx = Ctx(a.pid, tier, seed)
     try:
         fn = run_fn_by_pid(a.pid)
